@@ -193,9 +193,9 @@ func ExpectedTrapClass(kind string) string {
 	switch kind {
 	case "div0":
 		return "div0"
-	case "divOverflow":
+	case "divOverflow", "truncRange":
 		return "overflow"
-	case "truncRange", "truncNaN":
+	case "truncNaN":
 		return "badconv"
 	case "oobLoad", "oobStore":
 		return "oob"
